@@ -18,10 +18,21 @@ use vcommon::{Args, Report};
 const MAX: i128 = (1 << 53) - 1;
 
 fn judge(r: &mut Report, route: &str, v: i128, s: &Script, got: Result<Result<SafeLong, String>, String>) {
+    judge_limited(r, route, v, s, got, None)
+}
+
+/// `limit`: (the endpoint's request size limit, whether a Content-Length header is sent); a
+/// document longer than the limit counts as out of range: it must be refused, never cut
+fn judge_limited(r: &mut Report, route: &str, v: i128, s: &Script, got: Result<Result<SafeLong, String>, String>, limit: Option<(usize, bool)>) {
     r.evaluations += 1;
     r.transitions += 1;
-    let case = json!({"part": "http-body", "value": v.to_string(), "route": route, "script": s.iter().map(|e| match e { Ev::Chunk(b) => json!({"chunk": b}), Ev::Empty => json!("empty"), Ev::Pending => json!("pending"), Ev::Err => json!("err") }).collect::<Vec<_>>()});
-    let in_range = v.abs() <= MAX;
+    let mut case = json!({"part": "http-body", "value": v.to_string(), "route": route, "script": s.iter().map(|e| match e { Ev::Chunk(b) => json!({"chunk": b}), Ev::Empty => json!("empty"), Ev::Pending => json!("pending"), Ev::Err => json!("err") }).collect::<Vec<_>>()});
+    let mut in_range = v.abs() <= MAX;
+    if let Some((n, cl)) = limit {
+        case["limit"] = json!(n);
+        case["content_length"] = json!(cl);
+        in_range = in_range && v.to_string().len() <= n;
+    }
     match got {
         Err(p) => r.violation(format!("C15|http-body|{}|panic", route), format!("{} panicked on {} as {}: {}", route, v, script::text(s), p), case),
         Ok(Ok(x)) if !in_range || (*x).abs() as i128 > MAX => r.violation(format!("C15|http-body|{}|out-of-range-accepted", route), format!("{}: body {} ({}) produced safelong {}", route, v, script::text(s), *x), case),
@@ -48,6 +59,31 @@ fn one(r: &mut Report, rt: &ConjureRuntime, v: i128, s: &Script) {
     }
     judge(r, "StdRequestDeserializer(async)", v, s, vcommon::catch(|| e(block_on(<StdRequestDeserializer as AsyncDeserializeRequest<SafeLong, _>>::deserialize(rt, &h, ScriptStream::new(s))))));
     judge(r, "decode_serializable_response(async)", v, s, vcommon::catch(|| e(block_on(p::async_decode_serializable_response::<SafeLong, _>(resp(ScriptStream::new(s)))))));
+}
+
+/// the same body on an endpoint with a request size limit of 15 / 16 / 17 bytes (17 = the
+/// longest safelong document), with and without a Content-Length header
+fn one_limited(r: &mut Report, rt: &ConjureRuntime, v: i128, s: &Script, limit: usize, content_length: bool) {
+    r.states += 1;
+    let mut h = HeaderMap::new();
+    h.insert(CONTENT_TYPE, HeaderValue::from_static("application/json"));
+    if content_length {
+        h.insert(http::header::CONTENT_LENGTH, HeaderValue::from_str(&v.to_string().len().to_string()).unwrap());
+    }
+    let e = |r: Result<SafeLong, conjure_error::Error>| r.map_err(|e| e.cause().to_string());
+    macro_rules! with {
+        ($n:expr) => {
+            if limit == $n {
+                if !s.contains(&Ev::Pending) {
+                    judge_limited(r, "StdRequestDeserializer<N>(blocking)", v, s, vcommon::catch(|| e(<StdRequestDeserializer<{ $n }> as DeserializeRequest<SafeLong, _>>::deserialize(rt, &h, ScriptIter::new(s)))), Some((limit, content_length)));
+                }
+                judge_limited(r, "StdRequestDeserializer<N>(async)", v, s, vcommon::catch(|| e(block_on(<StdRequestDeserializer<{ $n }> as AsyncDeserializeRequest<SafeLong, _>>::deserialize(rt, &h, ScriptStream::new(s))))), Some((limit, content_length)));
+            }
+        };
+    }
+    with!(15);
+    with!(16);
+    with!(17);
 }
 
 /// the parameter decoders generated services use: required, optional, sequence; query, path and
@@ -115,7 +151,11 @@ pub fn run(args: &Args) -> Report {
                 o => Ev::Chunk(o["chunk"].as_array().unwrap().iter().map(|b| b.as_u64().unwrap() as u8).collect()),
             })
             .collect();
-        one(&mut report, &rt, c["value"].as_str().unwrap().parse().unwrap(), &s);
+        if let Some(n) = c.get("limit").and_then(|n| n.as_u64()) {
+            one_limited(&mut report, &rt, c["value"].as_str().unwrap().parse().unwrap(), &s, n as usize, c["content_length"].as_bool().unwrap_or(false));
+        } else {
+            one(&mut report, &rt, c["value"].as_str().unwrap().parse().unwrap(), &s);
+        }
         report.exhaustive = false;
         return report;
     }
@@ -137,6 +177,24 @@ pub fn run(args: &Args) -> Report {
             }
         }
     }
+    for c in [MAX, -MAX, 10i128.pow(15), -(10i128.pow(15)), 10i128.pow(14), 10i128.pow(16) * 9 + 7199254740991, 1 << 60] {
+        for d in -1i128..=1 {
+            let v = c + d;
+            let text = v.to_string();
+            let mut scripts: Vec<Script> = script::explore(text.as_bytes(), 1, true, true).into_iter().map(|(s, _)| s).filter(|s| !script::has_err(s)).collect();
+            for n in [1usize, 2, 3, 5, 8] {
+                scripts.push(text.as_bytes().chunks(n).map(|c| Ev::Chunk(c.to_vec())).collect());
+            }
+            for s in &scripts {
+                for limit in [15usize, 16, 17] {
+                    for cl in [false, true] {
+                        one_limited(&mut report, &rt, v, s, limit, cl);
+                    }
+                }
+            }
+        }
+    }
+    report.bound("size_limits", json!([15, 16, 17]));
     report.sample("http-body", json!({"value": "9007199254740992", "script": "chunk(\"9\") empty chunk(\"007199254740992\")", "expect": "rejected on every route"}));
     report.bound("http_body_deviations", k);
     report.nontrivial = report.states;
